@@ -45,6 +45,7 @@ def gen_unit(seed, nnames, maxdepth, pool_size):
     lines = []
     uses = [0]
     shadow_cross = [False]
+    fwd = [0]
 
     def declare(name, kind, indent):
         val[0] += 1
@@ -55,6 +56,18 @@ def gen_unit(seed, nnames, maxdepth, pool_size):
             lines.append("%stypedef char %s[%d];" % (indent, name, v))
         elif kind == "object":
             lines.append("%sstatic char %s[%d];" % (indent, name, v))
+        elif d(_int(0, 2)) == 0:
+            # forward declaration first: `struct N;` declares a new type in this scope even when an outer N is visible
+            # (C11 6.7.2.3p7); a pointer declared in between must point to the type completed below
+            su = "struct"
+            uses[0] += 1
+            k = uses[0]
+            lines.append("%s%s %s;" % (indent, su, name))
+            lines.append("%s%s %s *fp%d;" % (indent, "static " if indent else "", "%s %s" % (su, name), k))
+            lines.append("%s%s %s { char a[%d]; };" % (indent, su, name, v))
+            lines.append("%s%sint c%d = sizeof(*fp%d);" % (indent, "static " if indent else "", k, k))
+            exp[k] = v
+            fwd[0] += 1
         else:
             lines.append("%sstruct %s { char a[%d]; };" % (indent, name, v))
         return v
